@@ -151,7 +151,16 @@ class TriggerContext:
         :return: the result of the expression, or the exception that was raised.
         """
         try:
-            return eval(expression, getattr(self.__frame, 'f_globals', None), self.__frame.f_locals)
+            f_globals = getattr(self.__frame, 'f_globals', None)
+            if f_globals is None:
+                return eval(expression, None, self.__frame.f_locals)
+            # one namespace in which the locals shadow the globals: code nested inside the expression (a lambda, a
+            # generator expression) finds free names only in the globals given to eval - the frame's locals would be
+            # invisible there, or a global of the same name be used instead. (eval also adds __builtins__ to the
+            # mapping it is given: a copy keeps that out of the application's own dict.)
+            scope = dict(f_globals)
+            scope.update(self.__frame.f_locals)
+            return eval(expression, scope)
         except BaseException as e:
             return e
 
